@@ -1,5 +1,5 @@
 (* C03: _update_node's whole-document recurse() is a pointwise substitution. *)
-From Coq Require Import List ZArith NArith Bool Lia Arith.
+From Coq Require Import Ascii String List ZArith NArith Bool Lia Arith.
 From YP Require Import Outcome PyStr PyVal Doc Searches Mutate C04spec C04lists C03spec.
 Import ListNotations.
 
@@ -129,7 +129,7 @@ Theorem make_new_node_shape : forall lit fl src value fmt fresh vo new,
   make_new_node lit fl src value fmt fresh vo = ROk new ->
   exists nn, conv lit fl fmt value = ROk nn /\
     exists i, new = NLeaf i (nn_val nn) /\
-      tag i = None /\
+      tag i = (if nn_wrapped nn then nn_tag nn else None) /\
       (nn_wrapped nn = true ->
          oid i = fresh /\ has_anchor_attr i = true /\
          anchor i = match src with Some s => nonempty_anchor s | None => None end).
@@ -144,6 +144,84 @@ Proof.
       eexists. split; [reflexivity|]. simpl. split; auto. intros; discriminate.
   - destruct (nn_wrapped nn) eqn:Ew; inversion H; subst; eexists; (split; [reflexivity|]); simpl; split; auto.
     intros; discriminate.
+Qed.
+
+(* only the boolean conversions build a ScalarBoolean, and it is a wrapper around the integer 0 / 1 *)
+Lemma conv_bool_shape : forall value nn,
+  conv_bool value = ROk nn -> nn_wrapped nn = true /\ nn_sbool nn = true /\ (nn_val nn = PInt 0 \/ nn_val nn = PInt 1).
+Proof.
+  intros value nn H. unfold conv_bool in H.
+  assert (G : forall s0, (if mem_str s0 bool_allowed
+                          then ROk (mknn (PInt (if mem_str s0 bool_truthy then 1%Z else 0%Z)) true true)
+                          else RErr (PyCrash ValueError)) = ROk nn ->
+              nn_wrapped nn = true /\ nn_sbool nn = true /\ (nn_val nn = PInt 0 \/ nn_val nn = PInt 1)).
+  { intros s0 G. destruct (mem_str s0 bool_allowed); [|discriminate].
+    destruct (mem_str s0 bool_truthy); inversion G; subst; cbn [nn_val nn_wrapped nn_sbool]; auto. }
+  cbv zeta in H.
+  destruct value as [| b | z | q s | s | s]; try (match type of H with (if mem_str ?s1 _ then _ else _) = _ => exact (G s1 H) end).
+  inversion H; subst; simpl. repeat split; auto. destruct b; auto.
+Qed.
+
+Lemma conv_str_shape : forall value nn, conv_str value = ROk nn -> nn_sbool nn = false.
+Proof. intros value nn H. inversion H; reflexivity. Qed.
+
+Lemma conv_int_shape : forall value nn, conv_int value = ROk nn -> nn_sbool nn = false.
+Proof.
+  intros value nn H. unfold conv_int in H.
+  destruct value as [| b | z | q s | s | s]; try discriminate; try (inversion H; reflexivity).
+  destruct (py_int s); [inversion H; reflexivity | discriminate].
+Qed.
+
+Lemma conv_float_shape : forall fl value nn, conv_float fl value = ROk nn -> nn_sbool nn = false.
+Proof.
+  intros fl value nn H. unfold conv_float in H.
+  destruct value as [| b | z | q s | s | s]; try discriminate; try (inversion H; reflexivity);
+    match type of H with rbind (of_outcome ?x) _ = _ => destruct x as [[v|]| |] end;
+    simpl in H; try discriminate; inversion H; reflexivity.
+Qed.
+
+Lemma conv_sbool_shape : forall lit fl fmt value nn,
+  conv lit fl fmt value = ROk nn -> nn_sbool nn = true ->
+  nn_wrapped nn = true /\ (nn_val nn = PInt 0 \/ nn_val nn = PInt 1).
+Proof.
+  intros lit fl fmt value nn H Hs.
+  assert (Hb : forall v, conv_bool v = ROk nn -> nn_wrapped nn = true /\ (nn_val nn = PInt 0 \/ nn_val nn = PInt 1)).
+  { intros v Hv. destruct (conv_bool_shape _ _ Hv) as [A [_ B]]. auto. }
+  assert (Hn : forall (P : Prop), nn_sbool nn = false -> P) by (intros; congruence).
+  destruct fmt; simpl in H;
+    try (apply Hn; eapply conv_str_shape; eassumption);
+    try (apply Hn; eapply conv_int_shape; eassumption);
+    try (apply Hn; eapply conv_float_shape; eassumption);
+    try (eapply Hb; eassumption).
+  unfold conv_default in H.
+  destruct (of_outcome (typed_value lit value)) as [ast|e]; simpl in H; [|discriminate].
+  destruct ast as [| b | z | q s | s | s].
+  - inversion H; subst. discriminate.
+  - eapply Hb; eassumption.
+  - destruct value as [| b' | z' | q' s' | s' | s'];
+      try (apply Hn; eapply conv_int_shape; eassumption).
+    destruct (py_int s'); apply Hn; [eapply conv_int_shape | eapply conv_str_shape]; eassumption.
+  - apply Hn; eapply conv_float_shape; eassumption.
+  - apply Hn; eapply conv_str_shape; eassumption.
+  - destruct (first_char_is "["%char s || first_char_is "{"%char s).
+    + apply Hn; eapply conv_str_shape; eassumption.
+    + inversion H; subst. discriminate.
+Qed.
+
+(* the new node is a ScalarBoolean (Doc.is_sbool) exactly when a boolean conversion built it *)
+Theorem make_new_node_sbool : forall lit fl src value fmt fresh vo new nn,
+  make_new_node lit fl src value fmt fresh vo = ROk new ->
+  conv lit fl fmt value = ROk nn ->
+  is_sbool new = nn_sbool nn.
+Proof.
+  intros lit fl src value fmt fresh vo new nn H Hc.
+  destruct (make_new_node_shape _ _ _ _ _ _ _ _ H) as [nn' [Hc' [i [E [Ht _]]]]].
+  rewrite Hc in Hc'. inversion Hc'; subst nn'. subst new.
+  destruct (nn_sbool nn) eqn:Es.
+  - destruct (conv_sbool_shape _ _ _ _ _ Hc Es) as [Hw Hv].
+    rewrite Hw in Ht. unfold nn_tag in Ht. rewrite Es in Ht.
+    simpl. destruct Hv as [-> | ->]; rewrite Ht; reflexivity.
+  - unfold nn_tag in Ht. rewrite Es in Ht. destruct (nn_wrapped nn); simpl; destruct (nn_val nn); rewrite ?Ht; reflexivity.
 Qed.
 
 (* ---- the meaning of subst, pointwise ---- *)
